@@ -9,6 +9,7 @@ def shape (name : String) (vs : List Nat) : List (Nat × Nat) :=
   let g := fun i => vs.getD i 0
   match name with
   | "clique" => cliqueMotif vs
+  | "simple" => (cliqueMotif vs).filter fun e => e.1 != e.2
   | "cycle" => (cycleMotif vs).getD []
   | "diamond" => (diamondMotif vs).getD []
   | "path" => vs.zip vs.tail
